@@ -138,3 +138,74 @@ def differential(ast, syntax, ns_spec, style=None, world_kw=None):
     if not same_return(out_i, ns_i, out_m, ns_m):
         return 'return-identity', 'source %r' % src, src
     return None
+
+
+# ------------------------------------------------------------- six sources
+
+SOURCE_ORDER = ['kw', 'vars', 'client', 'mapping', 'ctor_kw', 'ctor_map']
+
+
+def run_impl_sources(source, syntax, sources, world_kw=None):
+    """sources: dict with optional keys kw / vars / mapping / ctor_kw /
+    ctor_map (name -> VALUE spec) and client (list of attr dicts; a list of
+    length 1 with 'as_tuple': False means a single client object)."""
+    from DocumentTemplate.DT_Return import DTReturn
+    from vf.values import build
+    world = World(return_exc=DTReturn, **(world_kw or {}))
+
+    def b(key):
+        return {k: build(v, world, 'impl')
+                for k, v in (sources.get(key) or {}).items()}
+    guard = cpu_limit(CPU_BUDGET)
+    guard.__enter__()
+    try:
+        t = make_template(source, syntax, ctor_map=b('ctor_map') or None,
+                          ctor_kw=b('ctor_kw'), vars_=b('vars'))
+        client = None
+        objs = [Obj({k: build(v, world, 'impl') for k, v in attrs.items()})
+                for attrs in sources.get('client') or []]
+        if objs:
+            client = tuple(objs) if sources.get('client_tuple', True) \
+                else objs[0]
+        mapping = b('mapping')
+        out = ('text', t(client, mapping, **b('kw')))
+    except Exception as e:
+        out = ('raise', e)
+    except CpuTimeout:
+        out = ('raise', TimeoutError('cpu'))
+    finally:
+        guard.__exit__(None, None, None)
+    if out[0] == 'text' and not isinstance(out[1], str):
+        out = ('return', out[1])
+    return out, world
+
+
+def run_model_sources(ast, sources, world_kw=None):
+    from vf.values import build
+    world = World(return_exc=model.ModelReturn, **(world_kw or {}))
+
+    def b(key):
+        return {k: build(v, world, 'model')
+                for k, v in (sources.get(key) or {}).items()}
+    layers = []
+    ctor = {k: v for k, v in b('ctor_map').items() if k[:1] != '_'}
+    ctor.update(b('ctor_kw'))
+    if ctor:
+        layers.append(('map', ctor))
+    mapping = b('mapping')
+    if mapping:
+        layers.append(('map', mapping))
+    for attrs in sources.get('client') or []:
+        layers.append(('inst', Obj({k: build(v, world, 'model')
+                                    for k, v in attrs.items()})))
+    v = b('vars')
+    if v:
+        layers.append(('map', v))
+    kw = b('kw')
+    if kw:
+        layers.append(('map', kw))
+    interp = model.Interp(world)
+    space = model.NS(layers, level=1)
+    out = interp.run(ast, space)
+    world.interp = interp
+    return out, world
